@@ -133,11 +133,21 @@ def run(pid, tier, replay=None):
         order = [w.by_abs[a] for a in rt.stored[1:]]
         run_ = store_drv.StoreRun(w, g)
         try:
-            for b in order:
-                run_.buffer(b)
-                if rng.random() < 0.4:
+            k = 0
+            nconc = 0
+            while k < len(order):
+                run_.buffer(order[k])
+                k += 1
+                x = rng.random()
+                if x < 0.25 and k < len(order):
+                    run_.flush_with_concurrent_add(order[k])        # a second writer thread hands over the next block during the flush
+                    k += 1
+                    nconc += 1
+                elif x < 0.55:
                     run_.flush()
             run_.flush()
+            info.setdefault("concurrent_hand_overs", 0)
+            info["concurrent_hand_overs"] += nconc
             tid += 1
             traces.append(run_.trace(tid))
             info[tid] = ("random_tree", "%d blocks" % len(order))
@@ -145,6 +155,7 @@ def run(pid, tier, replay=None):
         finally:
             run_.close()
 
+    chk.extra["concurrent_hand_overs_during_a_flush"] = info.pop("concurrent_hand_overs", 0)
     ids = [t["id"] for t in traces]
     verdicts, r2 = tracecheck.run("TraceStore", traces, {}, ids=ids, workers=4, timeout=3000)
     chk.states += r2.distinct
